@@ -187,11 +187,16 @@ Stylesheet::~Stylesheet()
         DeleteFunctor<ElemDecimalFormat>(m_elemDecimalFormats.getMemoryManager()));
 
 
-    for_each(
-        m_extensionNamespaces.begin(),
-        m_extensionNamespaces.end(),
-        makeMapValueDeleteFunctor(m_extensionNamespaces));
-
+    // (empty() does not create the head node of a container that has
+    // never been used, which begin() would; a destructor must not
+    // allocate memory.)
+    if (m_extensionNamespaces.empty() == false)
+    {
+        for_each(
+            m_extensionNamespaces.begin(),
+            m_extensionNamespaces.end(),
+            makeMapValueDeleteFunctor(m_extensionNamespaces));
+    }
 }
 
 
